@@ -14,7 +14,7 @@ import (
 // their closures and the helpers inlined into them).
 // validityExceptions: one finding per entry, with the reason it cannot happen.
 var validityExceptions = map[string]struct{ contains, reason string }{
-	"federation.(*Executor).execute": {"a goroutine appends to", "the optional response metadata of the sub-plans is collected under resMu in completion order; it is an unordered side channel for the caller's hook (the response JSON, which C06 is about, is stitched by position)"},
+	"federation.(*Executor).execute":  {"a goroutine appends to", "the optional response metadata of the sub-plans is collected under resMu in completion order; it is an unordered side channel for the caller's hook (the response JSON, which C06 is about, is stitched by position)"},
 	"federation.mergeSameAlias":       {"a re-sliced view without a capacity limit", "selections[:0] compacts the caller's slice in place; documented at the site: element k is written only after element k was read, and the only caller (flatten) replaces its slice with the result"},
 	"graphql.nestPathError":           {"result is kept somewhere else", "the key is appended to the inner error's path: the only *pathError values that reach this function were built by its own literal []string{key} (len == cap, so the append reallocates) or by one earlier nesting of the same error value on its way up; await, the only multi-level nester that could hand one error to several parents, has no caller"},
 	"graphql.nestPathErrorMulti":      {"result is kept somewhere else", "as nestPathError: the *pathError values Fail sees come from resolveObjectBatch's nestPathError(alias, err) literal (len == cap == 1), so appending the destination path always reallocates, also when one error is failed into several destinations"},
